@@ -274,6 +274,7 @@ def param2argparse_param(param, word_wrap=True, emit_default_doc=True):
     """
     name, _param = param
     del param
+    _param = dict(_param)  # `setdefault` below must not leak into the IR shared with other emitters
     typ, choices, required, action = (
         "str",
         None,
